@@ -159,6 +159,19 @@ def big_case(rng, n, name=b"big", merged_prefixes=1100):
             "probes": [hub, fan, pages[5], pages[6], nested, site, deep]}
 
 
+def rulebig_case(rng, n):
+    """A rule installed over n (> 1000) pages each of which needs its own webentity (one page per section, the
+    rule proposes the section): every page the installer fails to re-evaluate is a webentity missing from the report."""
+    site = b"s:http|h:com|h:sections|"
+    pages = [site + b"p:s%04d|p:x|" % i for i in range(n)]
+    rng.shuffle(pages)
+    ops = [{"op": "add_pages", "lrus": pages[i:i + 400], "crawled": bool((i // 400) % 2), "as_str": False} for i in range(0, n, 400)]
+    ops.append({"op": "rule", "anchor": site, "rule": "path1"})
+    ops.append({"op": "add_page", "lru": site + b"p:s0003|p:y|", "crawled": False, "as_str": False})
+    cfg = {"backend": rng.choice(["file", "memory"]), "default": "domain", "encoding": "utf-8", "overwrite": False, "rules": []}
+    return {"engine": "history", "cfg": cfg, "ops": ops, "audit_every": len(ops), "aseed": rng.getrandbits(32), "rulebig": n}
+
+
 def ids_case(rng, n):
     """n (> 65536) webentities created one request each, then ordinary requests on top: ids beyond two
     bytes, a trie of > 200 000 blocks (file offsets beyond 2**24)."""
@@ -365,6 +378,8 @@ def run_shard(prop, spec, tier, seed, shard, nshards, scratch):
         extra.append(("big", tp["big"], None))
     if tp.get("ids") and shard == max(0, nshards - 4):
         extra.append(("ids", tp["ids"], None))
+    if tp.get("rulebig") and shard == max(0, nshards - 5):
+        extra.append(("rulebig", tp["rulebig"], None))
     for kind, a1, a2 in extra:
         if time.time() > deadline:
             if kind == "shape":
@@ -387,13 +402,16 @@ def run_shard(prop, spec, tier, seed, shard, nshards, scratch):
         elif kind == "ids":
             case = ids_case(rng, a1)
             stats["cases_with_ids_past_65536"] += 1
+        elif kind == "rulebig":
+            case = rulebig_case(rng, a1)
+            stats["cases_with_a_rule_over_1000_pages_needing_webentities"] += 1
         else:
             case = soak_case(rng, a1)
             stats["soak_cases"] += 1
         case["id"] = "%s/%s/%s" % (kind, a1, "".join(map(str, a2 or ())))
         ds, feats, digest = run_case(prop, case, spec, scratch, stats)
         res["cases"] += 1
-        if kind in ("soak", "wide", "sorted_chain", "big", "ids"):
+        if kind in ("soak", "wide", "sorted_chain", "big", "ids", "rulebig"):
             res["notes"].append("%s case: %s" % (kind, feats))
         if feats and nontrivial(feats):
             res["nontrivial"].append(digest)
